@@ -33,7 +33,7 @@ when_kernel Gzx.Gen.K19b.quadToSquare in
 /-- the callees of `QuadrilateralToSquare`: the regenerated kernels -/
 def envQS (ops : NumOps α) : Gen.K19b.quadToSquare_Env α (T9 α) where
   PerspectiveTransform_SquareToQuadrilateral := Gen.K19.squareToQuad ops
-  buildAdjoint := adjK ops
+  PerspectiveTransform_buildAdjoint := adjK ops
 
 when_kernel Gzx.Gen.K19b.quadToSquare in
 /-- `QuadrilateralToSquare` = `SquareToQuadrilateral(…).buildAdjoint()` of the regenerated kernels = the model -/
@@ -50,7 +50,7 @@ def envQQ (ops : NumOps α) : Gen.K19b.quadToQuad_Env α (T9 α) where
   PerspectiveTransform_QuadrilateralToSquare := fun x0 y0 x1 y1 x2 y2 x3 y3 =>
     (Gen.K19b.quadToSquare ops (envQS ops) x0 y0 x1 y1 x2 y2 x3 y3).bind id
   PerspectiveTransform_SquareToQuadrilateral := Gen.K19.squareToQuad ops
-  sToQ_times := timesK ops
+  PerspectiveTransform_times := timesK ops
 
 when_kernel Gzx.Gen.K19b.quadToQuad in
 /-- **QuadrilateralToQuadrilateral, Go source to model**: `sToQ.times(qToS)` with `qToS` the adjoint of the square-to-quadrilateral
